@@ -21,6 +21,8 @@ Log(t)       == [op |-> "log", t |-> t]
 Sub(ops)     == [op |-> "sub", ops |-> ops]
 Op(name)     == [op |-> name]
 Env(k, s)    == [op |-> "env", k |-> k, s |-> s]
+Bh(back, s)  == [op |-> "bh", back |-> back, s |-> s]
+CallExt(to, ops) == [op |-> "callext", to |-> to, ops |-> ops]
 
 Progs == {
   <<Sstore(1, 1)>>,
@@ -40,6 +42,8 @@ Progs == {
 Pick(seq) == seq[RandomElement(1..Len(seq))]
 
 ReadProgs == {
+  <<Bh(1, 4), Op("ret") @@ [s |-> 4]>>,
+  <<Bh(3, 2), Bh(1, 3), Op("ret") @@ [s |-> 3]>>,
   <<Env(1, 4), Op("ret") @@ [s |-> 4]>>,
   <<Env(5, 4), Env(3, 1), Op("ret") @@ [s |-> 4]>>,
   <<Env(8, 2), Env(4, 3), Env(6, 1), Env(7, 4), Op("ret") @@ [s |-> 2]>>,
@@ -181,6 +185,7 @@ GTransact ==
 (* reads at a block boundary: state-mutating programs through eth_call / eth_callMany / eth_estimateGas (C10, C17) *)
 ReadTx(from, to, ops) == Tx("call", from, to, NULL, ops, NoLc, "ample")
 ReadStep(op, tx) == [op |-> op, from |-> tx.from, to |-> tx.to, ckind |-> tx.ckind, ops |-> tx.ops, lc |-> tx.lc]
+ReadStepAt(op, tx, b) == ReadStep(op, tx) @@ [block |-> b]
 
 GEthCall ==
   /\ Started /\ cur.n = 0
@@ -194,6 +199,24 @@ GEstimateLong ==
   /\ Started /\ cur.n = 0
   /\ \E from \in {RandomElement(Senders)}, op \in {Pick(<<"estimate", "estimate", "ethcall">>)} :
        Push(ReadStep(op, ReadTx(from, "dead", LongProg)))
+  /\ UNCHANGED <<chain, cur, world, pool, snaps, maxEver, dur, ctr>>
+
+(* a simulation with an explicit block number: past, the tip, and heights that do not exist yet *)
+GEthCallAt ==
+  /\ Started /\ cur.n = 0 /\ Cells # {}
+  /\ \E from \in {RandomElement(Senders)}, to \in {RandomElement(Cells)}, ops \in {RandomElement(ReadProgs)},
+        b \in {Pick(<<NextH + 1, NextH + 1, NextH + 2, NextH + 6, NextH, Height, IF Height > Base THEN Height - 1 ELSE Height>>)} :
+       Push(ReadStepAt("ethcall", ReadTx(from, to, ops), b))
+  /\ UNCHANGED <<chain, cur, world, pool, snaps, maxEver, dur, ctr>>
+
+(* a multi-call that creates a contract and then calls it from the same sender (the simulation keeps its own nonce count) *)
+GCallManyCreate ==
+  /\ Started /\ cur.n = 0
+  /\ \E from \in {RandomElement(Senders)}, o1 \in {RandomElement(Progs)}, o2 \in {RandomElement(ReadProgs)}, est \in {Pick(<<FALSE, FALSE, TRUE>>)} :
+       LET child == CreateAddr(from, Nonce(world, from)) IN
+       Push([op |-> "callmany", estimate |-> est,
+             calls |-> <<ReadStep("c", Tx("create", from, NULL, "cell", <<>>, NoLc, "ample")), ReadStep("c", ReadTx(from, child, o1)),
+                         ReadStep("c", ReadTx(from, child, o2))>>])
   /\ UNCHANGED <<chain, cur, world, pool, snaps, maxEver, dur, ctr>>
 
 GEthCallCreate ==
@@ -233,6 +256,18 @@ GPredicted ==
 GLogCall ==
   \E from \in {RandomElement(Senders)}, to \in {RandomElement(Cells)}, ops \in {RandomElement(LogProgs)} :
     GAdd("call", Tx("call", from, to, NULL, ops, NoLc, "ample"), "hex")
+
+(* logs of two emitters in one receipt: the called Cell logs, calls ANOTHER Cell that logs, and logs again (and the reverse   *)
+(* order); also a callee that reverts (its logs vanish) and a storage write in the callee                                   *)
+GLogCall2 ==
+  /\ Cardinality(Cells) >= 2
+  /\ \E from \in {RandomElement(Senders)}, to \in {RandomElement(Cells)} :
+       \E other \in {RandomElement(Cells \ {to})}, shape \in {Pick(<<1, 1, 2, 3, 4>>)} :
+         LET ops == CASE shape = 1 -> <<Log(<<1>>), CallExt(other, <<Log(<<2>>), Log(<<1, 2>>)>>), Log(<<1, 1>>)>>
+                      [] shape = 2 -> <<CallExt(other, <<Log(<<1>>)>>), Log(<<1>>), Log(<<2, 1>>)>>
+                      [] shape = 3 -> <<Log(<<2>>), CallExt(other, <<Log(<<1>>), Op("revert")>>), CallExt(other, <<Sstore(2, 3), Log(<<3>>)>>)>>
+                      [] OTHER -> <<CallExt(other, <<CallExt(to, <<Log(<<1, 2, 3>>)>>), Log(<<1>>)>>), Log(<<2>>)>>
+         IN  GAdd("call", Tx("call", from, to, NULL, ops, NoLc, "ample"), "hex")
 
 GDeployProbe ==
   /\ Cardinality(Probes) < 2
@@ -321,18 +356,18 @@ Weighted ==
     [] Focus = "proto"  -> GCall \/ GDeploy \/ GFinalise \/ GBad \/ GBad \/ GTransact \/ GLedger \/ GMine
     [] Focus = "pool"   -> GTransact \/ GTransact \/ GTransact \/ GFinalise \/ GFinalise \/ GMine \/ GCall \/ GReorg \/ GClear
     [] Focus = "ledger" -> GLedger \/ GLedger \/ GUserLedger \/ GUserLedger \/ GFinalise \/ GReorg \/ GCommit \/ GCall
-    [] Focus = "reads"  -> GEthCall \/ GEthCall \/ GEthCallCreate \/ GEstimateLong \/ GCallMany \/ GCallManyErr \/ GPredicted \/ GPredicted \/ GCall \/ GDeploy \/ GFinalise \/ GFinalise
+    [] Focus = "reads"  -> GEthCall \/ GEthCall \/ GEthCallAt \/ GEthCallCreate \/ GEstimateLong \/ GCallMany \/ GCallManyErr \/ GCallManyCreate \/ GPredicted \/ GPredicted \/ GCall \/ GDeploy \/ GFinalise \/ GFinalise
                              \/ GCommit \/ GReorg \/ GTransact \/ GLedger
     [] Focus = "logs"   -> IF Cardinality(Cells) < 2 THEN (GDeployCell \/ GFinalise)
-                           ELSE (GLogCall \/ GLogCall \/ GLogCall \/ GFinalise \/ GFinalise \/ GCommit)
+                           ELSE (GLogCall \/ GLogCall \/ GLogCall2 \/ GLogCall2 \/ GFinalise \/ GFinalise \/ GCommit)
     [] Focus = "logsnc" -> IF Cardinality(Cells) < 2 THEN (GDeployCell \/ GFinalise)
-                           ELSE (GLogCall \/ GLogCall \/ GLogCall \/ GFinalise \/ GFinalise)
+                           ELSE (GLogCall \/ GLogCall \/ GLogCall2 \/ GLogCall2 \/ GFinalise \/ GFinalise)
     [] Focus = "probe"  -> IF Probes = {} THEN (GDeployProbe \/ GFinalise)
                            ELSE (GProbeCall \/ GProbeCall \/ GProbeTransact \/ GProbeTransact \/ GFinalise \/ GFinalise \/ GMine \/ GMineFar
                                   \/ GReorg \/ GRestart \/ GCommit \/ GLedger \/ GDeployProbe)
     [] Focus = "crash"  -> GCall \/ GCall \/ GDeploy \/ GLedger \/ GTransact \/ GFinalise \/ GFinalise \/ GFinalise \/ GCommit \/ GCommit \/ GReorg \/ GMine
     [] Focus = "commit" -> GCall \/ GDeploy \/ GFinalise \/ GFinalise \/ GCommit \/ GClear \/ GRestart \/ GTransact \/ GLedger \/ GMine
-    [] OTHER -> GDeploy \/ GCall \/ GCall \/ GLedger \/ GUserLedger \/ GTransact \/ GFinalise \/ GFinalise \/ GMine
+    [] OTHER -> GDeploy \/ GCall \/ GCall \/ GLogCall2 \/ GLedger \/ GUserLedger \/ GTransact \/ GFinalise \/ GFinalise \/ GMine
                  \/ GCommit \/ GClear \/ GRestart \/ GReorg \/ GBad
 
 GDone ==
